@@ -8,6 +8,7 @@ Tie: run/trace correspondence + balance monitor evaluated on the implementation'
 -/
 import MTProofs.MassBalance
 import MTProps.C02
+import MTProofs.Invariants
 
 namespace MTProps.C09
 open MT MTProofs Finset MTProps.C02
@@ -128,5 +129,65 @@ theorem supported_of_zero_rows {β : Type} (n : Net β) (s : State ℝ) (hN : n.
       · have := (List.mem_filter.mp hj').1; rw [List.mem_range] at this; omega
       · have := (List.mem_filter.mp hj').1; rw [List.mem_range] at this; omega
     · intro j hj hnj; exact hzv j q hj hnj
+
+/-- vertex lists of a view: duplicate-free, in range -/
+structure ListsOK (N : Nat) : Prop where
+  uNodup : nv.uList.Nodup
+  vNodup : nv.vList.Nodup
+  uLt : ∀ i ∈ nv.uList, i < N
+  vLt : ∀ j ∈ nv.vList, j < N
+  undirected : nv.directed = false → nv.vList = nv.uList
+
+/-- the invariant of C03 gives the supports hypothesis -/
+theorem supported_of_wf (hl : ListsOK nv s.u.R) (h : WFState assort K nv s) : Supported nv s := by
+  constructor
+  · intro k
+    apply sumL_support nv.uList s.u.R hl.uNodup hl.uLt
+    intro i hi hni
+    by_cases hk : k < K
+    · exact h.uZero i k hi hk hni
+    · exact get_col_oob s.u h.uSized h.uT hi (by rw [h.uC]; omega)
+  · intro q
+    apply sumL_support nv.vList s.u.R hl.vNodup hl.vLt
+    intro j hj hnj
+    show (if nv.directed then s.v else s.u).get j q 0 = 0
+    by_cases hd : nv.directed = true
+    · obtain ⟨hvR, hvC, hvT⟩ := h.vShape hd
+      simp only [hd, ↓reduceIte]
+      by_cases hq : q < K
+      · exact h.vZero hd j q hj hq hnj
+      · exact get_col_oob s.v (h.vSized hd) hvT (by rw [hvR]; exact hj) (by rw [hvC]; omega)
+    · have hd' : nv.directed = false := by simpa using hd
+      simp only [hd', Bool.false_eq_true, ↓reduceIte]
+      rw [hl.undirected hd'] at hnj
+      by_cases hq : q < K
+      · exact h.uZero j q hj hq hnj
+      · exact get_col_oob s.u h.uSized h.uT hj (by rw [h.uC]; omega)
+
+/-- **mass balance at every sweep boundary** of a realization: for a well-formed state `s` (C03), after the
+completed iteration `sweep s`, under the property's preconditions evaluated on (u', v', w) -/
+theorem sweep_mass_balance (hwf : ViewWF nv s.u.R) (hl : ListsOK nv s.u.R) (h : WFState assort K nv s)
+    {a : Nat} (ha : a < nv.nL) :
+    let s' := stepV assort K nv (stepU assort K nv s)
+    (∀ i j, i < s.u.R → j < s.u.R → 0 < (nv.out a i).count j →
+      ε < rate assort K (wView assort false s'.w) (vOf nv s') (uOf s') i j a) →
+    (∀ k q, k < K → q < K → wView assort false s'.w k q a = 0 ∨ ε < wView assort false s'.w k q a) →
+    (∀ k q, k < K → q < K → 0 < wView assort false s'.w k q a →
+      ε < specWZ nv.uList nv.vList (uOf s') (vOf nv s') k q) →
+    (∑ i ∈ range s.u.R, ∑ j ∈ range s.u.R,
+        rate assort K (wView assort false (sweep assort K nv s).w) (vOf nv s') (uOf s') i j a)
+      + snappedMass assort K s.u.R nv.uList nv.vList nv.out (uOf s') (vOf nv s') (wView assort false s'.w) a
+      = ∑ i ∈ range s.u.R, ∑ j ∈ range s.u.R, ((nv.out a i).count j : ℝ) := by
+  intro s' hRates hW hZ
+  have h1 := stepU_wf assort K nv s hwf h
+  have h2 : WFState assort K nv s' := stepV_wf assort K nv _ (by rw [stepU_R]; exact hwf) h1
+  have hR : s'.u.R = s.u.R := by
+    show (stepV assort K nv (stepU assort K nv s)).u.R = s.u.R
+    rw [stepV_R, stepU_R]
+  have hsup : Supported nv s' := supported_of_wf assort K nv s' (by rw [hR]; exact hl) h2
+  have := mass_balance assort K nv s' (by rw [hR]; exact hwf) hsup ha
+    (by rw [hR]; exact hRates) hW hZ
+  rw [hR] at this
+  exact this
 
 end MTProps.C09
